@@ -21,7 +21,7 @@ TECHNIQUE = ('runtime monitor on the real sample generator: generated RuleDefaul
 RULE = ('cases = lists of 1-6 RuleDefault / DocumentedRuleDefault objects (plain, documented with operations and scope '
         'types, deprecated for removal, renamed, changed default under the same name); names and check strings over the '
         'rule alphabet incl. single-quoted literals, %(key)s, #, colons, non-ASCII (printable, no double quote / backslash); '
-        'descriptions and reasons from printable Unicode plus newlines, CRLF, tabs, #, quotes, colons, ---, list markers, '
+        'descriptions and reasons from printable Unicode plus newlines (LF, CRLF, bare CR, NEL, LS, PS), tabs, #, quotes, colons, ---, list markers, '
         'leading whitespace (literal blocks), >70-column words, emoji; YAML and JSON output; with and without '
         'exclude-deprecated. Non-trivial = some description/reason contains a line break, a YAML-significant character or '
         'an over-long word; distinct = distinct (defaults, options).')
@@ -43,7 +43,7 @@ TEXT = ['a', 'b', 'Z', ' ', '  ', '\n', '\n\n', '\t', '#', ':', '"', "'", '-', '
         '*', '!', '@', '`', '\r\n', 'é', 'ß', '日', '😀', ' ', 'x' * 80, '\\', '?', '- ', ': ', ' #', '---', '...',
         '　', 'word', 'Create a server.', '\n    indented literal', '\n\n  * bullet', '%(x)s', '"name": "rule"', '\n"x": "@"',
         '\n#"x": "@"', "\n'", '\n- a', '\n? q', '\n!!python/object', '{{', '}}', '\n...\n', '\n---\n', 'y' * 71, ' ' * 75,
-        '\n \n', '\n\t\n', 'k: v\n', '\n: ', '<<', '&a', '*a', '%TAG']
+        '\n \n', '\n\t\n', 'k: v\n', '\r', '\r', '\n  lit\rx: y', '\x85', '\u2028', '\u2029', '\n  a\u2028"k": "@"', '\n: ', '<<', '&a', '*a', '%TAG']
 NAMECH = list('abcxyz019') + [':', ':', '_', '-', '.', '/', 'é', 'ü', '*', '+']
 CHECKS = ['role:a', "'x':%(y)s or role:b", '', '@', '!', 'rule:z and not role:q', "(role:a or 'Member':%(role.name)s) and not rule:r",
           'project_id:%(project_id)s', 'role:a#b', 'http://h/%(n)s', 'is_admin:True or (role:é and k:v)', "role:it's", 'a:b,c', 'x:{y}',
